@@ -125,7 +125,8 @@ func zzNewEnv(height int64) *zzEnv {
 	ms := vrt.NewMultiStore()
 	env := &zzEnv{ms: ms, staking: &zzStaking{}}
 	env.ctx = sdk.NewContext(ms, tmproto.Header{Height: height}, false, log.NewNopLogger())
-	k := Keeper{storeKey: zzStoreKey, cdc: zzNativeCodec(), StakingKeeper: env.staking, Mhub2keeper: zzMhub{}}
+	cdc := zzNativeCodec()
+	k := Keeper{storeKey: zzStoreKey, cdc: cdc, paramSpace: zzSubspace(cdc, zzParamKey, zzParamTKey), StakingKeeper: env.staking, Mhub2keeper: zzMhub{}}
 	env.h = &zzHandler{real: AttestationHandler{keeper: k, stakingKeeper: env.staking}}
 	k.AttestationHandler = env.h
 	env.k = k
@@ -339,4 +340,30 @@ func ZZ_C06_OracleHolders() {
 			return
 		}
 	}
+}
+
+// ZZ_C15_OracleRoundTrip: oracle ExportGenesis -> InitGenesis.
+func ZZ_C15_OracleRoundTrip() {
+	a := zzNewEnv(5)
+	k, ctx := a.k, a.ctx
+	E := 1 + vrt.Uint64Below("epoch", 1<<56)
+	k.setCurrentEpoch(ctx, E)
+	k.SetParams(ctx, *types.DefaultParams())
+	k.storePrices(ctx, zzPriceList(vrt.IntRange("price", big.NewInt(1), big.NewInt(1<<40))))
+	k.storeHolders(ctx, zzHolders(0))
+	var gs types.GenesisState
+	if vrt.Panics(func() { gs = ExportGenesis(ctx, k) }) {
+		vrt.Assert("c15.oracle.export.no-panic", false)
+		return
+	}
+	b := zzNewEnv(5)
+	if vrt.Panics(func() { InitGenesis(b.ctx, b.k, gs) }) {
+		vrt.Assert("c15.oracle.import.no-panic", false)
+		return
+	}
+	vrt.Reach("c15.oracle.roundtrip")
+	vrt.Assert("c15.oracle.preserved[epoch]", b.k.GetCurrentEpoch(b.ctx) == E)
+	pa, pb := k.GetPrices(ctx), b.k.GetPrices(b.ctx)
+	vrt.Assert("c15.oracle.preserved[prices]", pb != nil && len(pa.List) == len(pb.List) && pa.List[0].Value.Equal(pb.List[0].Value))
+	vrt.Assert("c15.oracle.preserved[holders]", zzSameHolders(k.GetHolders(ctx), b.k.GetHolders(b.ctx)))
 }
